@@ -23,8 +23,8 @@ Definition res (x : list out * result * persist) : result := snd (fst x).
 Definition outs (x : list out * result * persist) : list out := fst (fst x).
 Definition pst (x : list out * result * persist) : persist := snd x.
 
-Lemma enable_ok cfg c p f s :
-  res (step_enable cfg c p f s) = Ok <-> enable_completes (p_sm_enable p) f s.
+Lemma enable_ok cfg c p f s sn :
+  res (step_enable cfg c p f s sn) = Ok <-> enable_completes (p_sm_enable p) f s.
 Proof.
   unfold step_enable, enable_completes, res.
   destruct (f_sm f && p_sm_enable p); [|cbn; tauto].
@@ -33,8 +33,8 @@ Proof.
   intros _. eauto.
 Qed.
 
-Lemma session_ok cfg c p f s :
-  res (step_session cfg c p f s) = Ok <-> session_completes (p_sm_enable p) f s.
+Lemma session_ok cfg c p f s sn :
+  res (step_session cfg c p f s sn) = Ok <-> session_completes (p_sm_enable p) f s.
 Proof.
   unfold step_session, session_completes.
   destruct (f_sess f); try apply enable_ok.
@@ -42,15 +42,15 @@ Proof.
   { absurd_case. }
   destruct i; try absurd_case.
   destruct t; try absurd_case.
-  pose proof (enable_ok cfg c (set_bind p (p_bind_jid p) (p_packet_id p + 1)) f s') as He.
-  unfold res in *. destruct (step_enable _ _ _ _ _) as [[w r] p2]. cbn [fst snd] in *.
+  pose proof (enable_ok cfg c (set_bind p (p_bind_jid p) (p_packet_id p + 1)) f s' [SIq TResult pl err]) as He.
+  unfold res in *. destruct (step_enable _ _ _ _ _ _) as [[w r] p2]. cbn [fst snd] in *.
   cbn [p_sm_enable set_bind] in He. rewrite He. split.
   - intros H. exists pl, err, s'. split; [reflexivity|exact H].
   - intros (pl0 & e0 & s3 & H & Hc). inversion H; subst. exact Hc.
 Qed.
 
-Lemma bind_ok cfg c p f s :
-  res (step_bind cfg c p f s) = Ok <-> bind_completes (p_sm_enable p) f s.
+Lemma bind_ok cfg c p f s sn :
+  res (step_bind cfg c p f s sn) = Ok <-> bind_completes (p_sm_enable p) f s.
 Proof.
   unfold step_bind, bind_completes.
   destruct s as [|i s'].
@@ -58,15 +58,15 @@ Proof.
   destruct i; try absurd_case.
   destruct t; try absurd_case.
   destruct pl; try absurd_case.
-  pose proof (session_ok cfg c (set_bind p jid (p_packet_id p + 1)) f s') as Hs.
-  unfold res in *. destruct (step_session _ _ _ _ _) as [[w r] p2]. cbn [fst snd] in *.
+  pose proof (session_ok cfg c (set_bind p jid (p_packet_id p + 1)) f s' [SIq TResult (PlBind jid) err]) as Hs.
+  unfold res in *. destruct (step_session _ _ _ _ _ _) as [[w r] p2]. cbn [fst snd] in *.
   cbn [p_sm_enable set_bind] in Hs. rewrite Hs. split.
   - intros H. exists jid, err, s'. split; [reflexivity|exact H].
   - intros (j & e0 & s2 & H & Hc). inversion H; subst. exact Hc.
 Qed.
 
-Lemma resume_ok cfg c p f s :
-  res (step_resume cfg c p f s) = Ok <-> tail_completes p f s.
+Lemma resume_ok cfg c p f s sn :
+  res (step_resume cfg c p f s sn) = Ok <-> tail_completes p f s.
 Proof.
   unfold step_resume, tail_completes, has_id.
   destruct (f_sm f && negb (str_eqb (p_sm_id p) [])); [|apply bind_ok].
@@ -79,15 +79,15 @@ Proof.
     + split; [discriminate|]. intros [(r & H)|(s1 & H & _)]; [|discriminate].
       inversion H; subst. rewrite str_eqb_refl in E. discriminate.
   - (* failed, then bind *)
-    pose proof (bind_ok cfg c (clear_sm p) f s') as Hb.
-    unfold res in *. destruct (step_bind _ _ _ _ _) as [[w r] p2]. cbn [fst snd] in *.
+    pose proof (bind_ok cfg c (clear_sm p) f s' [SFailed]) as Hb.
+    unfold res in *. destruct (step_bind _ _ _ _ _ _) as [[w r] p2]. cbn [fst snd] in *.
     cbn [p_sm_enable clear_sm] in Hb. rewrite Hb. split.
     + intros H. right. exists s'. split; [reflexivity|exact H].
     + intros [(r0 & H)|(s1 & H & Hc)]; [discriminate|]. inversion H; subst. exact Hc.
 Qed.
 
-Lemma auth_ok cfg c p f s :
-  res (step_auth cfg c p f s) = Ok <-> auth_completes cfg p f s.
+Lemma auth_ok cfg c p f s sn :
+  res (step_auth cfg c p f s sn) = Ok <-> auth_completes cfg p f s.
 Proof.
   unfold step_auth, auth_completes.
   destruct (choose_mech (c_mechs cfg) (f_mechs f)) as [m|].
@@ -107,8 +107,8 @@ Proof.
   { absurd_case. }
   destruct i2; try absurd_case.
   cbn [read_features].
-  pose proof (resume_ok cfg c p f0 s3) as Hr.
-  unfold res in *. destruct (step_resume _ _ _ _ _) as [[w r] p2]. cbn [fst snd] in *.
+  pose proof (resume_ok cfg c p f0 s3 [SHeader id; SFeatures f0]) as Hr.
+  unfold res in *. destruct (step_resume _ _ _ _ _ _) as [[w r] p2]. cbn [fst snd] in *.
   rewrite Hr. split.
   - intros H. exists m. split; [reflexivity|]. split; [exact Ei|]. exists id, f0, s3. split; [reflexivity|exact H].
   - intros (m' & _ & _ & id0 & f2 & s3' & H & Hc). inversion H; subst. exact Hc.
@@ -130,14 +130,14 @@ Proof.
   cbn [read_features].
   set (pa := set_flags (set_flags p false (p_tls_enabled p)) false false).
   assert (Hp : forall q, p_sm_enable q = p_sm_enable p -> p_sm_id q = p_sm_id p ->
-            forall c f' s', res (step_auth cfg c q f' s') = Ok <-> auth_completes cfg p f' s').
-  { intros q H1 H2 c f' s'. rewrite auth_ok. unfold auth_completes, tail_completes, has_id.
+            forall c f' s' sn, res (step_auth cfg c q f' s' sn) = Ok <-> auth_completes cfg p f' s').
+  { intros q H1 H2 c f' s' sn. rewrite auth_ok. unfold auth_completes, tail_completes, has_id.
     rewrite H1, H2. tauto. }
   destruct (f_tls f) eqn:Et.
   - (* no STARTTLS offered *)
     destruct (c_insecure cfg) eqn:Ei.
-    + pose proof (Hp (with_session pa) eq_refl eq_refl false f s2) as Ha.
-      unfold res in *. destruct (step_auth _ _ _ _ _) as [[w r] p2]. cbn [fst snd] in *.
+    + pose proof (Hp (with_session pa) eq_refl eq_refl false f s2 [SHeader id; SFeatures f]) as Ha.
+      unfold res in *. destruct (step_auth _ _ _ _ _ _) as [[w r] p2]. cbn [fst snd] in *.
       rewrite Ha. split.
       * intros H. split; [reflexivity|]. exists id, f, s2. split; [reflexivity|]. rewrite Et. auto.
       * intros (_ & id0 & f0 & s2' & H & Hc). inversion H; subst. rewrite Et in Hc. tauto.
@@ -171,8 +171,8 @@ Proof.
     { absurd_case. }
     destruct i4; try absurd_case.
     cbn [read_features].
-    pose proof (Hp (with_session (set_flags pa true true)) eq_refl eq_refl true f0 s5) as Ha.
-    unfold res in *. destruct (step_auth _ _ _ _ _) as [[w r] p2]. cbn [fst snd] in *.
+    pose proof (Hp (with_session (set_flags pa true true)) eq_refl eq_refl true f0 s5 [SHeader id0; SFeatures f0]) as Ha.
+    unfold res in *. destruct (step_auth _ _ _ _ _ _) as [[w r] p2]. cbn [fst snd] in *.
     rewrite Ha. split.
     + intros H. split; [reflexivity|]. exists id0, f0, s5. split; [reflexivity|exact H].
     + intros (_ & a & b & c0 & H & Hc). inversion H; subst. exact Hc.
@@ -198,63 +198,63 @@ Proof.
     { absurd_case. }
     destruct i4; try absurd_case.
     cbn [read_features].
-    pose proof (Hp (with_session (set_flags pa true true)) eq_refl eq_refl true f0 s5) as Ha.
-    unfold res in *. destruct (step_auth _ _ _ _ _) as [[w r] p2]. cbn [fst snd] in *.
+    pose proof (Hp (with_session (set_flags pa true true)) eq_refl eq_refl true f0 s5 [SHeader id0; SFeatures f0]) as Ha.
+    unfold res in *. destruct (step_auth _ _ _ _ _ _) as [[w r] p2]. cbn [fst snd] in *.
     rewrite Ha. split.
     + intros H. split; [reflexivity|]. exists id0, f0, s5. split; [reflexivity|exact H].
     + intros (_ & a & b & c0 & H & Hc). inversion H; subst. exact Hc.
 Qed.
 
 (* ---------- order of the client's requests ---------- *)
-Lemma enable_shape cfg c p f s :
-  reqs (outs (step_enable cfg c p f s)) = [] \/ exists b, reqs (outs (step_enable cfg c p f s)) = [REnable b].
+Lemma enable_shape cfg c p f s sn :
+  reqs (outs (step_enable cfg c p f s sn)) = [] \/ exists b, reqs (outs (step_enable cfg c p f s sn)) = [REnable b].
 Proof.
   unfold step_enable, outs. destruct (f_sm f && p_sm_enable p); [|left; reflexivity].
   right. exists (c_sm_resume cfg). destruct s as [|[] s']; reflexivity.
 Qed.
 
-Lemma session_shape cfg c p f s : after_bind (reqs (outs (step_session cfg c p f s))) = true.
+Lemma session_shape cfg c p f s sn : after_bind (reqs (outs (step_session cfg c p f s sn))) = true.
 Proof.
   unfold step_session. destruct (f_sess f).
-  1,3: destruct (enable_shape cfg c p f s) as [H|[b H]]; rewrite H; reflexivity.
+  1,3: destruct (enable_shape cfg c p f s sn) as [H|[b H]]; rewrite H; reflexivity.
   destruct s as [|i s']; [reflexivity|].
   destruct i; try reflexivity. destruct t; try reflexivity.
-  pose proof (enable_shape cfg c (set_bind p (p_bind_jid p) (p_packet_id p + 1)) f s') as H.
-  unfold outs in *. destruct (step_enable _ _ _ _ _) as [[w r] p2]. cbn [fst] in *.
+  pose proof (enable_shape cfg c (set_bind p (p_bind_jid p) (p_packet_id p + 1)) f s' [SIq TResult pl err]) as H.
+  unfold outs in *. destruct (step_enable _ _ _ _ _ _) as [[w r] p2]. cbn [fst] in *.
   unfold reqs in *. rewrite map_app. cbn [map o_req o app].
   destruct H as [H|[b H]]; rewrite H; reflexivity.
 Qed.
 
-Lemma bind_shape cfg c p f s : from_bind (reqs (outs (step_bind cfg c p f s))) = true.
+Lemma bind_shape cfg c p f s sn : from_bind (reqs (outs (step_bind cfg c p f s sn))) = true.
 Proof.
   unfold step_bind. destruct s as [|i s']; [reflexivity|].
   destruct i; try reflexivity. destruct t; try reflexivity. destruct pl; try reflexivity.
-  pose proof (session_shape cfg c (set_bind p jid (p_packet_id p + 1)) f s') as H.
-  unfold outs in *. destruct (step_session _ _ _ _ _) as [[w r] p2]. cbn [fst] in *.
+  pose proof (session_shape cfg c (set_bind p jid (p_packet_id p + 1)) f s' [SIq TResult (PlBind jid) err]) as H.
+  unfold outs in *. destruct (step_session _ _ _ _ _ _) as [[w r] p2]. cbn [fst] in *.
   unfold reqs in *. rewrite map_app. cbn [map o_req o app from_bind]. exact H.
 Qed.
 
-Lemma resume_shape cfg c p f s : ordered_tail (reqs (outs (step_resume cfg c p f s))) = true.
+Lemma resume_shape cfg c p f s sn : ordered_tail (reqs (outs (step_resume cfg c p f s sn))) = true.
 Proof.
   unfold step_resume. destruct (f_sm f && negb (str_eqb (p_sm_id p) [])).
   - destruct s as [|i s']; [reflexivity|]. destruct i; try reflexivity.
     + cbn. destruct (str_eqb previd (p_sm_id p)); reflexivity.
-    + pose proof (bind_shape cfg c (clear_sm p) f s') as H.
-      unfold outs in *. destruct (step_bind _ _ _ _ _) as [[w r] p2]. cbn [fst] in *.
+    + pose proof (bind_shape cfg c (clear_sm p) f s' [SFailed]) as H.
+      unfold outs in *. destruct (step_bind _ _ _ _ _ _) as [[w r] p2]. cbn [fst] in *.
       unfold reqs in *. rewrite map_app. cbn [map o_req o app ordered_tail]. exact H.
-  - pose proof (bind_shape cfg c p f s) as H.
-    destruct (reqs (outs (step_bind cfg c p f s))) as [|[] l]; try discriminate; exact H.
+  - pose proof (bind_shape cfg c p f s sn) as H.
+    destruct (reqs (outs (step_bind cfg c p f s sn))) as [|[] l]; try discriminate; exact H.
 Qed.
 
-Lemma auth_shape cfg c p f s : ordered_auth (reqs (outs (step_auth cfg c p f s))) = true.
+Lemma auth_shape cfg c p f s sn : ordered_auth (reqs (outs (step_auth cfg c p f s sn))) = true.
 Proof.
   unfold step_auth. destruct (choose_mech _ _) as [m|]; [|reflexivity].
   destruct (negb (implemented m)); [reflexivity|].
   destruct s as [|i s1]; [reflexivity|]. destruct i; try reflexivity.
   destruct (read_header s1) as [[id s2]|]; [|reflexivity].
   destruct (read_features s2) as [[f2 s3]|]; [|reflexivity].
-  pose proof (resume_shape cfg c p f2 s3) as H.
-  unfold outs in *. destruct (step_resume _ _ _ _ _) as [[w r] p2]. cbn [fst] in *.
+  pose proof (resume_shape cfg c p f2 s3 [SHeader id; SFeatures f2]) as H.
+  unfold outs in *. destruct (step_resume _ _ _ _ _ _) as [[w r] p2]. cbn [fst] in *.
   unfold reqs in *. rewrite map_app. cbn [map o_req o app ordered_auth]. exact H.
 Qed.
 
@@ -263,11 +263,11 @@ Proof.
   unfold connect. destruct (negb dial); [reflexivity|].
   destruct (read_header s) as [[id s1]|]; [|reflexivity].
   destruct (read_features s1) as [[f s2]|]; [|reflexivity].
-  assert (Hauth : forall chan q ff ss pre,
+  assert (Hauth : forall chan q ff ss sn pre,
             (pre = [ROpen] \/ pre = [ROpen; RStartTls; ROpen]) ->
-            forall w r p2, step_auth cfg chan q ff ss = (w, r, p2) ->
+            forall w r p2, step_auth cfg chan q ff ss sn = (w, r, p2) ->
             ordered (pre ++ reqs w) = true).
-  { intros chan q ff ss pre Hpre w r p2 E. pose proof (auth_shape cfg chan q ff ss) as H.
+  { intros chan q ff ss sn pre Hpre w r p2 E. pose proof (auth_shape cfg chan q ff ss sn) as H.
     unfold outs in H. rewrite E in H. cbn [fst] in H.
     destruct Hpre as [-> | ->]; cbn [app ordered].
     - destruct (reqs w) as [|rq l]; [reflexivity|].
@@ -275,34 +275,34 @@ Proof.
     - exact H. }
   destruct (f_tls f).
   - destruct (c_insecure cfg); [|reflexivity].
-    destruct (step_auth _ _ _ _ _) as [[w r] p2] eqn:E. unfold outs. cbn [fst].
-    unfold reqs. rewrite map_app. apply (Hauth _ _ _ _ [ROpen] (or_introl eq_refl) _ _ _ E).
+    destruct (step_auth _ _ _ _ _ _) as [[w r] p2] eqn:E. unfold outs. cbn [fst].
+    unfold reqs. rewrite map_app. apply (Hauth _ _ _ _ _ [ROpen] (or_introl eq_refl) _ _ _ E).
   - destruct (read_proceed s2) as [s3|]; [|destruct (c_insecure cfg); reflexivity].
     destruct tls; [|destruct (c_insecure cfg); reflexivity].
     destruct (read_header s3) as [[id1 s4]|]; [|reflexivity].
     destruct (read_features s4) as [[f1 s5]|]; [|reflexivity].
-    destruct (step_auth _ _ _ _ _) as [[w r] p2] eqn:E. unfold outs. cbn [fst].
-    unfold reqs. rewrite map_app. apply (Hauth _ _ _ _ [ROpen; RStartTls; ROpen] (or_intror eq_refl) _ _ _ E).
+    destruct (step_auth _ _ _ _ _ _) as [[w r] p2] eqn:E. unfold outs. cbn [fst].
+    unfold reqs. rewrite map_app. apply (Hauth _ _ _ _ _ [ROpen; RStartTls; ROpen] (or_intror eq_refl) _ _ _ E).
   - destruct (read_proceed s2) as [s3|]; [|destruct (c_insecure cfg); reflexivity].
     destruct tls; [|destruct (c_insecure cfg); reflexivity].
     destruct (read_header s3) as [[id1 s4]|]; [|reflexivity].
     destruct (read_features s4) as [[f1 s5]|]; [|reflexivity].
-    destruct (step_auth _ _ _ _ _) as [[w r] p2] eqn:E. unfold outs. cbn [fst].
-    unfold reqs. rewrite map_app. apply (Hauth _ _ _ _ [ROpen; RStartTls; ROpen] (or_intror eq_refl) _ _ _ E).
+    destruct (step_auth _ _ _ _ _ _) as [[w r] p2] eqn:E. unfold outs. cbn [fst].
+    unfold reqs. rewrite map_app. apply (Hauth _ _ _ _ _ [ROpen; RStartTls; ROpen] (or_intror eq_refl) _ _ _ E).
 Qed.
 
 (* ---------- stream management resumption (C11) ---------- *)
 (* a <resume/> is only ever sent with the stored id (non-empty) and the stored count *)
-Lemma resume_req_content cfg c p f s prev h :
-  In (RResume prev h) (reqs (outs (step_resume cfg c p f s))) ->
+Lemma resume_req_content cfg c p f s sn prev h :
+  In (RResume prev h) (reqs (outs (step_resume cfg c p f s sn))) ->
   prev = p_sm_id p /\ h = p_inbound p /\ p_sm_id p <> [].
 Proof.
   unfold step_resume. destruct (f_sm f && negb (str_eqb (p_sm_id p) [])) eqn:E.
   - apply andb_true_iff in E as [_ E]. apply negb_true_iff in E.
     assert (Hne : p_sm_id p <> []). { intros H. rewrite H in E. discriminate. }
-    assert (Hb : forall q ss, ~ In (RResume prev h) (reqs (outs (step_bind cfg c q f ss)))).
-    { intros q ss H. pose proof (bind_shape cfg c q f ss) as Hs.
-      destruct (reqs (outs (step_bind cfg c q f ss))) as [|[] l]; try discriminate; [inversion H|].
+    assert (Hb : forall q ss sn', ~ In (RResume prev h) (reqs (outs (step_bind cfg c q f ss sn')))).
+    { intros q ss sn' H. pose proof (bind_shape cfg c q f ss sn') as Hs.
+      destruct (reqs (outs (step_bind cfg c q f ss sn'))) as [|[] l]; try discriminate; [inversion H|].
       destruct H as [H|H]; [discriminate|].
       destruct l as [|[] l']; try discriminate; [inversion H| |].
       - destruct H as [H|H]; [discriminate|]. destruct l' as [|[] l'']; try discriminate; [inversion H|].
@@ -315,13 +315,13 @@ Proof.
     destruct s as [|i s']; [apply (Hhead []); [exact H|intros []]|].
     destruct i; try (apply (Hhead []); [exact H|intros []]).
     + destruct (str_eqb previd (p_sm_id p)); apply (Hhead []); try exact H; intros [].
-    + pose proof (Hb (clear_sm p) s') as Hn.
-      unfold outs in *. destruct (step_bind _ _ _ _ _) as [[w r] p2]. cbn [fst] in *.
+    + pose proof (Hb (clear_sm p) s' [SFailed]) as Hn.
+      unfold outs in *. destruct (step_bind _ _ _ _ _ _) as [[w r] p2]. cbn [fst] in *.
       unfold reqs in H. rewrite map_app in H. cbn [map o_req o app] in H.
       apply (Hhead (reqs w)); assumption.
   - intros H. exfalso.
-    pose proof (bind_shape cfg c p f s) as Hs.
-    destruct (reqs (outs (step_bind cfg c p f s))) as [|[] l]; try discriminate; [inversion H|].
+    pose proof (bind_shape cfg c p f s sn) as Hs.
+    destruct (reqs (outs (step_bind cfg c p f s sn))) as [|[] l]; try discriminate; [inversion H|].
     destruct H as [H|H]; [discriminate|].
     destruct l as [|[] l']; try discriminate; [inversion H| |].
     + destruct H as [H|H]; [discriminate|]. destruct l' as [|[] l'']; try discriminate; [inversion H|].
@@ -329,13 +329,13 @@ Proof.
     + destruct l'; [|discriminate]. destruct H as [H|H]; [discriminate|inversion H].
 Qed.
 
-Lemma auth_resume_content cfg c p f s prev h :
-  In (RResume prev h) (reqs (outs (step_auth cfg c p f s))) ->
+Lemma auth_resume_content cfg c p f s sn prev h :
+  In (RResume prev h) (reqs (outs (step_auth cfg c p f s sn))) ->
   prev = p_sm_id p /\ h = p_inbound p /\ p_sm_id p <> [].
 Proof.
   unfold step_auth. destruct (choose_mech _ _) as [m|]; [|intros []].
   destruct (negb (implemented m)); [intros []|].
-  assert (H1 : forall w, In (RResume prev h) (reqs ([o c (RAuth m)] ++ w)) -> In (RResume prev h) (reqs w)).
+  assert (H1 : forall w, In (RResume prev h) (reqs ([o c (RAuth m) sn] ++ w)) -> In (RResume prev h) (reqs w)).
   { intros w [H|H]; [discriminate|exact H]. }
   destruct s as [|i s1]; try (intros H; apply (H1 []) in H; destruct H).
   destruct i; try (intros H; apply (H1 []) in H; destruct H).
@@ -343,8 +343,8 @@ Proof.
   2: { intros [H|[H|[]]]; discriminate. }
   destruct (read_features s2) as [[f2 s3]|].
   2: { intros [H|[H|[]]]; discriminate. }
-  pose proof (resume_req_content cfg c p f2 s3 prev h) as Hr.
-  unfold outs in *. destruct (step_resume _ _ _ _ _) as [[w r] p2]. cbn [fst] in *.
+  pose proof (resume_req_content cfg c p f2 s3 [SHeader id; SFeatures f2] prev h) as Hr.
+  unfold outs in *. destruct (step_resume _ _ _ _ _ _) as [[w r] p2]. cbn [fst] in *.
   intros H. apply Hr. unfold reqs in *. rewrite map_app in H. apply in_app_or in H as [H|H]; [|exact H].
   destruct H as [H|[H|[]]]; discriminate.
 Qed.
@@ -356,71 +356,71 @@ Proof.
   unfold connect. destruct (negb dial); [intros []|].
   destruct (read_header s) as [[id s1]|]; [|intros [H|[]]; discriminate].
   destruct (read_features s1) as [[f s2]|]; [|intros [H|[]]; discriminate].
-  assert (Hlift : forall chan q ff ss (pre : list out),
+  assert (Hlift : forall chan q ff ss sn (pre : list out),
      p_sm_id q = p_sm_id p -> p_inbound q = p_inbound p ->
      ~ In (RResume prev h) (reqs pre) ->
-     forall w r p2, step_auth cfg chan q ff ss = (w, r, p2) ->
+     forall w r p2, step_auth cfg chan q ff ss sn = (w, r, p2) ->
      In (RResume prev h) (reqs (pre ++ w)) ->
      prev = p_sm_id p /\ h = p_inbound p /\ p_sm_id p <> []).
-  { intros chan q ff ss pre Hi Hn Hpre w r p2 E H.
-    pose proof (auth_resume_content cfg chan q ff ss prev h) as Ha.
+  { intros chan q ff ss sn pre Hi Hn Hpre w r p2 E H.
+    pose proof (auth_resume_content cfg chan q ff ss sn prev h) as Ha.
     unfold outs in Ha. rewrite E in Ha. cbn [fst] in Ha. rewrite Hi, Hn in Ha.
     unfold reqs in H. rewrite map_app in H. apply in_app_or in H as [H|H]; [contradiction|].
     apply Ha. exact H. }
-  assert (N1 : ~ In (RResume prev h) (reqs [o false ROpen])) by (intros [H|[]]; discriminate).
-  assert (N2 : ~ In (RResume prev h) (reqs (([o false ROpen] ++ [o false RStartTls]) ++ [o true ROpen])))
+  assert (N1 : ~ In (RResume prev h) (reqs [o false ROpen []])) by (intros [H|[]]; discriminate).
+  assert (N2 : ~ In (RResume prev h) (reqs (([o false ROpen []] ++ [o false RStartTls [SHeader id; SFeatures f]]) ++ [o true ROpen [SProceed]])))
     by (intros [H|[H|[H|[]]]]; discriminate).
-  assert (N3 : ~ In (RResume prev h) (reqs ([o false ROpen] ++ [o false RStartTls])))
+  assert (N3 : ~ In (RResume prev h) (reqs ([o false ROpen []] ++ [o false RStartTls [SHeader id; SFeatures f]])))
     by (intros [H|[H|[]]]; discriminate).
   destruct (f_tls f).
   - destruct (c_insecure cfg); [|intros H; contradiction].
-    destruct (step_auth _ _ _ _ _) as [[w r] p2] eqn:E. unfold outs. cbn [fst].
+    destruct (step_auth _ _ _ _ _ _) as [[w r] p2] eqn:E. unfold outs. cbn [fst].
     eapply Hlift; [| |exact N1|exact E]; reflexivity.
   - destruct (read_proceed s2) as [s3|]; [|destruct (c_insecure cfg); intros H; contradiction].
     destruct tls; [|destruct (c_insecure cfg); intros H; contradiction].
     destruct (read_header s3) as [[id1 s4]|]; [|intros H; contradiction].
     destruct (read_features s4) as [[f1 s5]|]; [|intros H; contradiction].
-    destruct (step_auth _ _ _ _ _) as [[w r] p2] eqn:E. unfold outs. cbn [fst].
+    destruct (step_auth _ _ _ _ _ _) as [[w r] p2] eqn:E. unfold outs. cbn [fst].
     eapply Hlift; [| |exact N2|exact E]; reflexivity.
   - destruct (read_proceed s2) as [s3|]; [|destruct (c_insecure cfg); intros H; contradiction].
     destruct tls; [|destruct (c_insecure cfg); intros H; contradiction].
     destruct (read_header s3) as [[id1 s4]|]; [|intros H; contradiction].
     destruct (read_features s4) as [[f1 s5]|]; [|intros H; contradiction].
-    destruct (step_auth _ _ _ _ _) as [[w r] p2] eqn:E. unfold outs. cbn [fst].
+    destruct (step_auth _ _ _ _ _ _) as [[w r] p2] eqn:E. unfold outs. cbn [fst].
     eapply Hlift; [| |exact N2|exact E]; reflexivity.
 Qed.
 
 (* the three outcomes of an attempted resumption *)
-Lemma resumed_continues cfg c p f rest :
+Lemma resumed_continues cfg c p f rest sn :
   f_sm f = true -> has_id p = true ->
-  step_resume cfg c p f (SResumed (p_sm_id p) :: rest)
-  = ([o c (RResume (p_sm_id p) (p_inbound p))], Ok, p).
+  step_resume cfg c p f (SResumed (p_sm_id p) :: rest) sn
+  = ([o c (RResume (p_sm_id p) (p_inbound p)) sn], Ok, p).
 Proof.
   intros Hf Hi. unfold step_resume, has_id in *. rewrite Hf, Hi. cbn.
   rewrite str_eqb_refl. reflexivity.
 Qed.
 
-Lemma refused_binds cfg c p f s1 :
+Lemma refused_binds cfg c p f s1 sn :
   f_sm f = true -> has_id p = true ->
-  step_resume cfg c p f (SFailed :: s1)
-  = (let '(w, r, p2) := step_bind cfg c (clear_sm p) f s1 in
-     (o c (RResume (p_sm_id p) (p_inbound p)) :: w, r, p2))
-  /\ exists w', reqs (outs (step_bind cfg c (clear_sm p) f s1))
+  step_resume cfg c p f (SFailed :: s1) sn
+  = (let '(w, r, p2) := step_bind cfg c (clear_sm p) f s1 [SFailed] in
+     (o c (RResume (p_sm_id p) (p_inbound p)) sn :: w, r, p2))
+  /\ exists w', reqs (outs (step_bind cfg c (clear_sm p) f s1 [SFailed]))
                = RBind (c_resource cfg) (p_packet_id p + 1) :: w'.
 Proof.
   intros Hf Hi. unfold step_resume, has_id in *. rewrite Hf, Hi. cbn [andb]. split.
-  - destruct (step_bind _ _ _ _ _) as [[w r] p2]. reflexivity.
+  - destruct (step_bind _ _ _ _ _ _) as [[w r] p2]. reflexivity.
   - unfold step_bind. cbn [clear_sm p_packet_id].
     destruct s1 as [|i s']; [eexists; reflexivity|].
     destruct i; try (eexists; reflexivity). destruct t; try (eexists; reflexivity).
     destruct pl; try (eexists; reflexivity).
-    destruct (step_session _ _ _ _ _) as [[w r] p2]. unfold outs, reqs. cbn. eexists; reflexivity.
+    destruct (step_session _ _ _ _ _ _) as [[w r] p2]. unfold outs, reqs. cbn. eexists; reflexivity.
 Qed.
 
-Lemma other_reply_discards cfg c p f s :
+Lemma other_reply_discards cfg c p f s sn :
   f_sm f = true -> has_id p = true ->
   (forall rest, s <> SResumed (p_sm_id p) :: rest) -> (forall s1, s <> SFailed :: s1) ->
-  exists w cp, step_resume cfg c p f s = (w, Err false false, clear_sm p) /\ cp = clear_sm p /\ p_sm_id cp = [].
+  exists w cp, step_resume cfg c p f s sn = (w, Err false false, clear_sm p) /\ cp = clear_sm p /\ p_sm_id cp = [].
 Proof.
   intros Hf Hi Hr Hfl. unfold step_resume, has_id in *. rewrite Hf, Hi. cbn [andb].
   destruct s as [|i s']; [eexists; eexists; split; [reflexivity|split; reflexivity]|].
@@ -433,8 +433,8 @@ Qed.
 
 (* whatever happens in a connection, the stored id afterwards is the old one, empty,
    or one the server handed out in an <enabled/> of this connection *)
-Lemma enable_sm_id cfg c p f s :
-  let q := pst (step_enable cfg c p f s) in
+Lemma enable_sm_id cfg c p f s sn :
+  let q := pst (step_enable cfg c p f s sn) in
   p_sm_id q = p_sm_id p \/ p_sm_id q = [] \/ exists r, In (SEnabled (p_sm_id q) r) s.
 Proof.
   unfold step_enable, pst. destruct (f_sm f && p_sm_enable p); [|left; reflexivity].
